@@ -130,7 +130,9 @@ class Product:
         return not (self == rhs)
 
     def __lt__(self, rhs):
-        return (self.name, self.version, self.flavor) < (rhs.name, rhs.version, rhs.flavor)
+        # version and flavor are None for a product that is not declared (e.g. an unresolved dependency)
+        key = lambda p: tuple("" if x is None else x for x in (p.name, p.version, p.flavor))
+        return key(self) < key(rhs)
 
     @classmethod
     def _decode_dir(self, version):
